@@ -9,7 +9,7 @@
 
 use crate::alloc::{self, Window};
 use crate::corpus;
-use crate::drive::{self, Ctor, Outcome};
+use crate::drive::{self, Ctor, Outcome, PK};
 use crate::json::J;
 use crate::prng::{Rng, H};
 use crate::src::{Policy, Src};
@@ -74,7 +74,64 @@ impl Monitor for C05 {
             1..=10 => 200.min(self.max_size),
             _ => 10,
         };
-        let input = corpus::draw(rng, cfg, size);
+        let mut input = corpus::draw(rng, cfg, size);
+        let mut giant = false;
+        if self.max_size >= 3000 && rng.chance(1, 30_000) {
+            // a giant item: more than 2^20 entries in one clause / value line / justice line / section
+            // (internal buffers and their recycling are sized by the largest item seen), followed by an
+            // empty and an ordinary item
+            let n = *rng.pick(&[(1usize << 20) + 1, 1_500_000, (1 << 21) + 1]);
+            let mut b: Vec<u8> = Vec::with_capacity(n * 3 + 100);
+            match pk {
+                PK::Cnf | PK::Wcnf | PK::Gcnf => {
+                    let pre: &[u8] = match pk {
+                        PK::Wcnf => b"3 ",
+                        PK::Gcnf => b"{2} ",
+                        _ => b"",
+                    };
+                    b.extend_from_slice(pre);
+                    for i in 0..n {
+                        b.extend_from_slice(if i % 2 == 0 { b"1 " } else { b"-2 " });
+                    }
+                    b.extend_from_slice(b"0\n");
+                    b.extend_from_slice(pre);
+                    b.extend_from_slice(b"0\n");
+                    b.extend_from_slice(pre);
+                    b.extend_from_slice(b"1 -1 0\n");
+                }
+                PK::Log => {
+                    b.extend_from_slice(b"s SATISFIABLE\nv ");
+                    for i in 0..n {
+                        b.extend_from_slice(if i % 2 == 0 { b"1 " } else { b"-2 " });
+                    }
+                    b.extend_from_slice(b"0\n");
+                }
+                PK::Btor2 => {
+                    b.extend_from_slice(b"1 sort bitvec 1\n2 input 1\n3 justice ");
+                    b.extend_from_slice(n.to_string().as_bytes());
+                    for _ in 0..n {
+                        b.extend_from_slice(b" 2");
+                    }
+                    b.extend_from_slice(b"\n4 justice 1 2\n");
+                }
+                PK::Aag | PK::Aig => {
+                    b.extend_from_slice(if pk == PK::Aag { b"aag" } else { b"aig" });
+                    b.extend_from_slice(format!(" 0 0 0 {} 0 0 0 2\n", n).as_bytes());
+                    for _ in 0..n {
+                        b.extend_from_slice(b"1\n");
+                    }
+                    // two justice properties: an empty one and one with two literals
+                    b.extend_from_slice(b"0\n2\n0\n1\n");
+                }
+            }
+            rep.inc("giant_item_documents");
+            giant = true;
+            input = corpus::Input {
+                bytes: b,
+                class: corpus::Class::Hostile,
+                doc: None,
+            };
+        }
         let bytes = &input.bytes;
         let len = bytes.len();
         let data = Rc::new(bytes.clone());
@@ -120,7 +177,12 @@ impl Monitor for C05 {
             }
             Ok(out) => {
                 match out {
-                    Outcome::End => rep.inc("accepted"),
+                    Outcome::End => {
+                        rep.inc("accepted");
+                        if giant {
+                            rep.inc("giant_item_documents_accepted");
+                        }
+                    }
                     Outcome::Syntax { msg, .. } => {
                         rep.inc("syntax_errors");
                         let t = format!("{}:{}", pk.name(), template(msg));
